@@ -4,6 +4,7 @@ mod c03;
 mod c04;
 mod c10;
 mod c15;
+mod calibrate;
 mod common;
 mod pool;
 mod wit;
